@@ -9,12 +9,12 @@ ID = 'C09'
 RULE = ('genomes of 1..4 chromosomes (size 1..7); leaf arrays from bedGraphs (every shape class: starts at 0 / later x '
         'ends at size / earlier x gaps / touching records x int / float / bool values x empty; exhaustive record sets '
         'of <= 3 records on one chromosome of size <= 5 (quick: 4)), from interval sets (get_mask, get_pileup; '
-        'unsorted, overlapping, touching across a chromosome boundary) and from GenomicRunLengthArray.from_intervals '
+        'unsorted, overlapping, touching across a chromosome boundary; structured family: duplicated rows, nested, zero-length, equal starts / stops, whole chromosome, a middle chromosome without rows) and from GenomicRunLengthArray.from_intervals '
         '(scalar / per-interval values, default value); bedGraphs whose neighbouring runs are np.isclose-equal but different (250 | 250+2^-10, 2^-40 next to 0, 2000000 | 2000001); interval sets of 2^15+1 / 2^16+1 rows (thorough: 2^16-1, 2^16, 100000, 2^17+1) on a tiny genome through get_pileup / get_mask, sent to Coq as (interval, multiplicity); well-typed expression trees over {+,-,*,<,>,==,&,|,~} with '
         'array and Python-scalar operands up to depth 3; np.sum / .sum() (positional, keyword and method forms of axis=None) and np.histogram of the result in every calling convention (bins int or explicit edges x positional / keyword, range positional / keyword / absent, default call), counts and edges compared.  non-trivial = some leaf has '
         'a record, and the case has two or more chromosomes or an operator')
 EXHAUSTIVE = {'quick': False, 'thorough': False}
-TIE = ('translator+correspondence: Gen/C09.v regenerated from /repo (from_bedgraph, from_intervals, to_array, slice bounds, offsets) bridged to the named formulas of Model/C09.v (C09_source_tie); '
+TIE = ('translator+correspondence: Gen/C09.v regenerated from /repo (from_bedgraph, from_intervals, to_array, slice bounds, offsets) bridged to the named formulas of Model/C09.v (C09_source_tie); get_pileup empty-set test / result / hand-over skeleton bridged to Model/C09_pileup.v (C09_pileup_source_tie); '
        'slicing, get_data, ufunc forwarding, sum, histogram evaluated in Coq on the same records and expression tree')
 ASSUMPTIONS = ['values are finite and small (no overflow / NaN): every value is sent to Coq as an exact dyadic rational m/2^e',
                'float results are compared exactly (values are integers or small dyadic rationals, so dense NumPy and the '
@@ -25,10 +25,14 @@ PARTIAL = ['npstructures RunLengthArray ufuncs / slicing / histogram / sum / Run
            'C09_histogram_partial, C09_sum_int_partial, C09_to_dict_entry are about that abstract model, not about npstructures source',
            'np.sum on float tracks: checked by correspondence only (C09_sum_int_partial covers bool / int tracks); the dyadic '
            'normalisation algebra needed for an exact-rational statement is not proved',
-           'get_mask end to end (C09_mask_end_to_end_partial) takes the correctness of argsort + merge_intervals as a hypothesis in '
-           'the words of C08_merge_relational / C08_mask_is_positive_coverage (proved there for C08\'s model of the same code); '
-           'get_pileup: only the coordinate statement C09_pileup_genome is proved, the flat pileup itself (npstructures '
-           'RunLength2dArray) is tied by correspondence',
+           'get_pileup (C09_pileup_events_flat / C09_pileup_end_to_end / C09_pileup_back_conversion) is proved about the event pipeline of '
+           'Model/C09_pileup.v (row events 0 | start +1 | stop -1, stable sort, running sum, length appended, empty runs removed, constructor assertions); '
+           'that these five steps are what npstructures RunLength2dArray.from_intervals(...).sum(axis=0) does is a NAMED MODELLING ASSUMPTION '
+           '(external code, not translated), validated by the correspondence check (values and run structure); interval sets of more than 48 rows '
+           '(size-threshold cases) are evaluated with the abstract coverage model `pileup` instead of the pipeline (C09_pileup_abstract_flat / '
+           'C09_pileup_in_force_end_to_end prove that this model, and so the model in force, expands to the coverage count too)',
+           'C09_mask_end_to_end_partial is history: C09_mask_end_to_end has no hypothesis on the merge step (the merge walk is the scan of Proofs/C08_merge.v, '
+           'C08 lemmas imported); the literal vectorised merge_intervals code (maximum.accumulate, masks) is tied to that scan in C08 (merge_model_go), not again here',
            'C09_from_intervals_dense_partial / _touching_refuted / _array_refuted are history (the pinned constructor); the '
            'constructor in force is covered by C09_from_intervals_scalar_full / C09_from_intervals_array_full']
 PER_FILE = 24
@@ -219,6 +223,64 @@ def interval_leaf(rng, tag, sizes):
     if rng.random() < 0.4:
         recs.sort()
     return dict(tag=tag, kind='b' if tag == 1 else 'i', recs=recs, value=V(1), default=V(0))
+
+
+IV_FEATURES = ['dup', 'nested', 'border', 'zero', 'touch', 'full', 'same_start', 'same_stop']
+
+
+def structured_interval_leaf(rng, tag, sizes, feats, empty_mid=False):
+    """interval set (get_mask / get_pileup) built from named features: duplicated rows, nested intervals, a pair touching
+    across a chromosome border (stop = chromosome size | start = 0 of the next), zero-length rows, touching inside a
+    chromosome, a whole chromosome, equal starts / equal stops; optionally a middle chromosome without any row."""
+    nc = len(sizes)
+    skip = rng.randrange(1, nc - 1) if (empty_mid and nc >= 3) else None
+    chroms = [c for c in range(nc) if c != skip]
+    recs = []
+
+    def add(c, s, e):
+        recs.append([c, s, e, V(1)])
+    for f in feats:
+        c = rng.choice(chroms)
+        n = sizes[c]
+        s = rng.randrange(n)
+        e = rng.randint(s + 1, n)
+        if f == 'dup':
+            for _ in range(rng.choice([2, 2, 3])):
+                add(c, s, e)
+        elif f == 'nested':
+            s2 = rng.randint(s, e - 1)
+            add(c, s, e)
+            add(c, s2, rng.randint(s2 + 1, e))
+        elif f == 'border':
+            pairs = [c0 for c0 in range(nc - 1) if c0 != skip and c0 + 1 != skip]
+            if pairs:
+                c0 = rng.choice(pairs)
+                add(c0, rng.randrange(sizes[c0]), sizes[c0])
+                add(c0 + 1, 0, rng.randint(1, sizes[c0 + 1]))
+            else:
+                add(c, s, n)
+        elif f == 'zero':
+            add(c, s, s)
+        elif f == 'touch' and n >= 2:
+            m = rng.randint(1, n - 1)
+            add(c, rng.randrange(m), m)
+            add(c, m, rng.randint(m + 1, n))
+        elif f == 'full':
+            add(c, 0, n)
+        elif f == 'same_start':
+            add(c, s, e)
+            add(c, s, rng.randint(s + 1, n))
+        elif f == 'same_stop':
+            add(c, s, e)
+            add(c, rng.randrange(e), e)
+        else:
+            add(c, s, e)
+    r = rng.random()
+    if r < 0.4:
+        rng.shuffle(recs)
+    elif r < 0.6:
+        recs.sort(reverse=True)
+    return dict(tag=tag, kind='b' if tag == 1 else 'i', recs=recs, value=V(1), default=V(0), feats=sorted(set(feats)) + (['empty_mid'] if skip is not None else []))
 
 
 def expand_rows(recs):
@@ -448,6 +510,17 @@ def generate(tier, seed):
         sizes = [rng.randint(2, 9) for _ in range(2)]
         lp, lm = big_interval_leaf(rng, 2, sizes, n_rows), big_interval_leaf(rng, 1, sizes, n_rows - 1000)
         cases.append(mk(sizes, [lp, lm], ['aa', '*', ['leaf', 0], ['leaf', 1]], EDGES[3]))
+    # G. structured interval sets through get_pileup / get_mask: duplicated rows, nested, touching across a chromosome border,
+    #    zero-length rows, equal starts / stops, a whole chromosome, a middle chromosome without rows; every feature alone and
+    #    random combinations of two or three
+    combos = [[f] for f in IV_FEATURES] + [rng.sample(IV_FEATURES, rng.choice([2, 2, 3])) for _ in range(14 if quick else 120)]
+    for j, feats in enumerate(combos):
+        for tag in (2, 1):
+            nchrom = rng.randint(1, 4) if j % 3 else rng.randint(3, 4)
+            sizes = [rng.randint(1, 6) for _ in range(nchrom)]
+            leaf = structured_interval_leaf(rng, tag, sizes, feats, empty_mid=(j % 2 == 0))
+            ex = ['leaf', 0] if j % 4 else rand_expr(rng, [leaf], 1)
+            cases.append(mk(sizes, [leaf], ex, EDGES[j % len(EDGES)], names=j % 2))
     # C. random genomes, mixed leaves, expression trees to depth 3
     n_rand = 1000 if quick else 8000
     for j in range(n_rand):
@@ -677,13 +750,15 @@ def shape_class(case, l):
 
 
 def distribution(cases, obs):
-    d = dict(chromosomes={}, leaf_tags={}, bedgraph_kinds={}, bedgraph_shapes={}, depth={}, operators={}, histogram_call={}, sum_call={}, errors=0)
+    d = dict(chromosomes={}, leaf_tags={}, bedgraph_kinds={}, bedgraph_shapes={}, interval_features={}, depth={}, operators={}, histogram_call={}, sum_call={}, errors=0)
     for c, o in zip(cases, obs):
         k = str(len(c['sizes']))
         d['chromosomes'][k] = d['chromosomes'].get(k, 0) + 1
         for l in c['leaves']:
             t = str(l['tag'])
             d['leaf_tags'][t] = d['leaf_tags'].get(t, 0) + 1
+            for f in l.get('feats', []):
+                d['interval_features'][f] = d['interval_features'].get(f, 0) + 1
             if l['tag'] == 0:
                 d['bedgraph_kinds'][l['kind']] = d['bedgraph_kinds'].get(l['kind'], 0) + 1
                 s = shape_class(c, l)
